@@ -706,6 +706,19 @@ class ExprGen:
         if ty == "N":
             return self.nodeset(depth)
         if depth <= 0:
+            if rng.random() < 0.4:
+                # context-dependent leaves at every position: position(), last(), the context node, current()
+                dot = ("step", ("ctx",), False, "self", ("any",), [])
+                if ty == "n":
+                    return rng.choice([("fn", "position", []), ("fn", "last", []), ("fn", "number", [dot]),
+                                       ("fn", "count", [("step", ("ctx",), False, "child", ("star", None), [])]),
+                                       ("ar", "-", ("fn", "last", []), ("fn", "position", []))])
+                if ty == "s":
+                    return rng.choice([("fn", "string", [dot]), ("fn", "name", []), ("fn", "local-name", [dot]),
+                                       ("fn", "string", [("fn", "current", [])]), ("fn", "string", [("fn", "last", [])])])
+                return rng.choice([("cmp", "=", ("fn", "position", []), ("fn", "last", [])),
+                                   ("cmp", "<", ("fn", "position", []), ("fn", "last", [])),
+                                   ("fn", "boolean", [("step", ("ctx",), False, "child", ("star", None), [])])])
             return {"s": self.literal, "n": self.number,
                     "b": lambda: ("fn", rng.choice(["true", "false"]), [])}[ty]()
         any_ = lambda: self.expr(depth - 1, rng.choice(["N", "N", "s", "n", "b"]))
@@ -837,6 +850,22 @@ FIXED_EXPRS = [
     "//a:*[. = 5]", "//*[. = '5']", "//*[starts-with(., '5')]", "//a:l1/*[2]", "/descendant::a:l1[2]", "/descendant::a:t[2]",
     "/a:c/descendant::*[3]", "/a:c/descendant-or-self::*[1]", "/descendant-or-self::node()[1]", "/a:c/a:l1/descendant::*[1]",
     "/a:c/a:l1/a:in/parent::*", "/a:c/a:l1/a:in/parent::a:l1", "/a:c/a:l1/a:in/parent::*[1]", "/a:c/a:l1/a:in/..", "//a:y/..",
+    "/a:c/a:l1[not(position() != last())]", "/a:c/a:l1[boolean(position() = last())]", "/a:c/a:l1[string(last()) = '7']",
+    "/a:c/a:l1[number(last()) - 1 = position()]", "/a:c/a:l1[a:v = floor(last() div 2)]", "/a:c/a:l1[not(position() < last())]/a:k",
+    "sum(/a:c/a:l1[not(position() < last() - 3)]/a:v)", "/a:c/a:lu[concat(position(), '/', last()) = '2/4']", "/a:c/a:lu[string-length(string(last())) = position()]",
+    "/a:c/a:lu[contains(concat('|', last(), '|'), '|4|')]", "/a:c/a:lu[translate(string(last()), '4', 'x') = 'x'][2]", "/a:c/a:lu[substring('abcdef', position(), 1) = 'c']",
+    "/a:c/a:lu[substring('abcdef', last(), 1) = 'd']", "/a:c/a:lu[round(last() div 3) = position()]", "/a:c/a:lu[ceiling(last() div 3) = position()]",
+    "/a:c/a:lu[count(../a:lu[position() <= last() - 1]) = 3]", "/a:c/a:lu[count(../a:lu[not(position() = last())]) = position()]",
+    "/a:c/a:l1[count(a:t[not(position() != last())]) = 1]", "/a:c/a:l1[a:t[boolean(last() = 2)]]", "/a:c/a:l1[string(a:t[number(last())]) = 't2']",
+    "(/a:c/a:l1)[not(position() != last())]", "(/a:c/a:l1/a:k)[string(last()) = string(position())]", "(/a:c/a:l1 | /a:c/a:lu)[boolean(position() = last() - 1)]",
+    "/a:c/a:l1[last()]/preceding-sibling::*[not(position() != last())]", "/a:c/a:l1[last()]/preceding-sibling::a:l1[string(last()) = '6'][1]",
+    "/a:c/a:lu[last()]/preceding-sibling::a:lu[number(string(position())) = 2]", "/a:c/b:bc/b:s/ancestor-or-self::*[not(position() != last())]",
+    "/a:c/a:l1[starts-with(string(last()), '7') and not(position() mod 2)]", "/a:c/a:l1[normalize-space(concat(' ', last(), ' ')) = '7'][last()]",
+    "/a:c/a:l1[boolean(last() - position())][not(last() - position())]", "/a:c/a:l1[not(not(position() = last() - 1))]/a:k",
+    "/a:c/a:l1[string(position() = last()) = 'true']", "/a:c/a:l1[number(position() = last()) = 1]", "/a:c/a:l1[(position() = last()) = true()]",
+    "/a:c/a:l1[- - last() = position() + 0]", "/a:c/a:l1[last() * 1 = position() div 1]", "/a:c/a:l1[string(current()/a:k) = a:k or string(last()) = '0']",
+    "/a:c/a:l1[name(self::*[not(position() != last())]) = 'a:l1']", "/a:c/a:l1[count(self::*[string(last()) = '1']) = 1][string(last()) = '7']",
+    "/a:c/a:ll[string(.) = string(../a:ll[number(last())])]", "/a:c/a:ll[not(string-length(.) != string-length(../a:ll[position() = last()]))]",
     "/a:c/s", "/a:c/bx", "/a:c/descendant::s", "/tl", "/c/s", "/a:c/l1/k", "/a:c/a:l1/v", "//s", "//v", "/a:c/b:bc/s", "/c/l1[k='a']",
 ]
 
@@ -869,6 +898,146 @@ def targeted(rng, nodes, g):
     p = parse(rng.choice(NUM_PATHS))
     return ("step", p[1], p[2], p[3], p[4], [("cmp", rng.choice(["<=", ">=", "<", ">"]), ("step", ("ctx",), False, "self", ("any",), []),
                                              g.number())])
+
+
+MULTI_PATHS = ["/a:c/a:l1", "/a:c/a:lu", "/a:c/a:l2", "/a:c/a:ll", "/a:c/a:ln", "/a:c/*", "/a:top", "/a:tll", "/*", "/a:c/a:np/../*",
+               "/a:c/a:l1[last()]/preceding-sibling::*", "/a:c/a:l1[1]/following-sibling::*", "/a:c/a:lu[last()]/preceding-sibling::a:lu",
+               "/a:c/a:l1[1]/a:t", "/a:c/a:l1[1]/*", "/a:c/b:bc/b:m", "/a:c/b:bc/b:s/ancestor-or-self::*", "/a:c/a:l1[1]/a:in/a:x/ancestor::*",
+               "/a:c/a:l1[last()]/a:k/preceding::a:k", "/a:c/a:l1[1]/a:k/following::a:k", "/a:c/descendant::a:k", "/descendant::a:l1",
+               "/a:c/a:l1[2]/descendant-or-self::*"]
+
+
+def positional(rng, g):
+    """position() / last() / the context node at EVERY expression position: inside arguments of every function,
+    inside both operands of every operator, in nested predicates, after filter expressions, on forward and reverse
+    axes, on steps from ONE context node that select several nodes (so that position and size differ from 1 and the
+    positions are not subject to the listed per-step deviation)"""
+    num = lambda z: ("num", str(z))
+    fn = lambda n, *a: ("fn", n, list(a))
+    pos, last = fn("position"), fn("last")
+    dot = ("step", ("ctx",), False, "self", ("any",), [])
+
+    def core_num():
+        k = rng.randrange(10)
+        if k == 0:
+            return pos
+        if k == 1:
+            return last
+        if k == 2:
+            return ("ar", "-", last, pos)
+        if k == 3:
+            return ("ar", rng.choice(["+", "-"]), rng.choice([pos, last]), num(rng.choice([1, 2])))
+        if k == 4:
+            return ("ar", rng.choice(["div", "mod", "*"]), rng.choice([pos, last]), num(rng.choice([2, 3])))
+        if k == 5:
+            return fn("count", ("step", ("ctx",), False, rng.choice(["preceding-sibling", "following-sibling"]), ("star", None), []))
+        if k == 6:
+            return fn("string-length", fn("string", dot))
+        if k == 7:
+            return fn("count", ("step", ("step", ("ctx",), False, "parent", ("any",), []), False, "child", ("star", None),
+                                [("cmp", rng.choice(["<=", "<", "!="]), pos, rng.choice([last, ("ar", "-", last, num(1))]))]))
+        if k == 8:
+            return fn("number", dot)
+        return ("ar", "+", pos, last)
+
+    def wrap_num(x, d):
+        if d <= 0 or rng.random() < 0.3:
+            return x
+        k = rng.randrange(12)
+        y = wrap_num(x, d - 1)
+        if k == 0:
+            return fn("number", fn("string", y))
+        if k == 1:
+            return fn(rng.choice(["floor", "ceiling", "round"]), y)
+        if k == 2:
+            return ("ar", rng.choice(["+", "-"]), y, num(0))
+        if k == 3:
+            return ("neg", ("neg", y))
+        if k == 4:
+            return fn("number", fn("concat", fn("string", y), ("lit", b"")))
+        if k == 5:
+            return fn("string-length", fn("substring", ("lit", b"aaaaaaaaaaaaaaaaaaaa"), num(1), y))
+        if k == 6:
+            return fn("number", fn("normalize-space", fn("concat", ("lit", b" "), y, ("lit", b" "))))
+        if k == 7:
+            return fn("number", fn("translate", fn("string", y), ("lit", b"x"), ("lit", b"y")))
+        if k == 8:
+            return fn("number", fn("substring-before", fn("concat", y, ("lit", b"|")), ("lit", b"|")))
+        if k == 9:
+            return fn("number", fn("substring-after", fn("concat", ("lit", b"|"), y), ("lit", b"|")))
+        if k == 10:
+            return ("ar", "*", num(1), y)
+        return fn("sum", ("filter", ("step", ("ctx",), False, "self", ("any",), []), [("cmp", "=", y, y)])) if False else y
+
+    def core_bool(d):
+        a, b = wrap_num(core_num(), d), wrap_num(core_num(), d)
+        k = rng.randrange(6)
+        if k == 0:
+            return ("cmp", rng.choice(["=", "!=", "<", "<=", ">", ">="]), a, b)
+        if k == 1:
+            return ("cmp", "=", fn("string", a), ("lit", str(rng.randrange(0, 8)).encode()))
+        if k == 2:
+            return ("cmp", rng.choice(["=", "<", ">="]), a, num(rng.randrange(0, 8)))
+        if k == 3:
+            return fn(rng.choice(["contains", "starts-with"]), fn("concat", ("lit", b"|"), a, ("lit", b"|")),
+                      ("lit", ("|%d" % rng.randrange(0, 8)).encode()))
+        if k == 4:
+            return ("cmp", "=", fn("substring", ("lit", b"abcdefgh"), a, num(1)), ("lit", bytes([97 + rng.randrange(0, 8)])))
+        return ("cmp", rng.choice(["=", "!="]), a, b)
+
+    def wrap_bool(x, d):
+        if d <= 0 or rng.random() < 0.3:
+            return x
+        y = wrap_bool(x, d - 1)
+        k = rng.randrange(11)
+        if k == 0:
+            return fn("not", fn("not", y))
+        if k == 1:
+            return fn("boolean", y)
+        if k == 2:
+            return fn("not", y)
+        if k == 3:
+            return ("and", y, fn("true"))
+        if k == 4:
+            return ("or", fn("false"), y)
+        if k == 5:
+            return ("cmp", "=", y, fn("true"))
+        if k == 6:
+            return ("cmp", "=", fn("string", y), ("lit", b"true"))
+        if k == 7:
+            return ("cmp", "=", fn("number", y), num(1))
+        if k == 8:
+            return ("and", fn("not", fn("not", y)), core_bool(d - 1))
+        if k == 9:
+            return ("or", y, ("and", core_bool(d - 1), fn("false")))
+        return fn("boolean", fn("string-length", fn("substring", fn("string", y), num(1), num(4)))) if False else \
+            ("cmp", "!=", fn("string", y), ("lit", b"false"))
+
+    def a_pred():
+        d = rng.choice([1, 2, 2, 3])
+        if rng.random() < 0.2:
+            return wrap_num(core_num(), d)            # numeric predicate
+        return wrap_bool(core_bool(d), d)
+
+    base = parse(rng.choice(MULTI_PATHS))
+    preds = [a_pred() for _ in range(rng.choice([1, 1, 2]))]
+    k = rng.randrange(6)
+    if k == 0:                                         # filter expression
+        e = ("filter", base, preds)
+    elif k == 1 and base[0] == "step":                 # nested: predicate on a child step inside a predicate
+        inner = ("step", ("ctx",), False, "child", ("star", None), preds)
+        e = ("step", base[1], base[2], base[3], base[4], list(base[5]) +
+             [rng.choice([inner, ("cmp", ">", ("fn", "count", [inner]), ("num", "0")), ("fn", "not", [inner])])])
+    else:
+        e = ("step", base[1], base[2], base[3], base[4], list(base[5]) + preds) if base[0] == "step" else ("filter", base, preds)
+    r = rng.random()
+    if r < 0.25:
+        return ("fn", "count", [e])
+    if r < 0.35:
+        return ("fn", "string", [e])
+    if r < 0.45 and e[0] == "step":
+        return ("step", e, False, "child", ("star", None), [])
+    return e
 
 
 def nice_ctx(nodes, rng, k):
@@ -987,6 +1156,8 @@ class XPathEval(Comp):
                     e = gu.path(0)                       # unprefixed names: paths without predicates only
                 elif j % 17 == 15:
                     e = targeted(rng, nodes, g)
+                elif j % 17 in (12, 13, 14):
+                    e = positional(rng, g)
                 else:
                     e = g.expr(depth)
                 L.append(case_line(y, x, d, rng.choice(ctxs), e, render(e, abbrev=rng.random() < 0.7), off))
